@@ -634,6 +634,74 @@ def afm_doc(m: AObj) -> str:
     return "\n".join(lines) + "\n"
 
 
+def histories(pm: ProgramModel, ctx: Ctx, mb: ModelBuilder) -> None:
+    """What a document denotes does not depend on what was read before it in the process: per reader, a document (with
+    and without a constraints section) is read, the caller edits the model it was given (a constraint appended, a child
+    attached, a flag flipped), and the same document is read again by a new reader object; then the file is replaced and
+    the first reader object is asked again."""
+    import json as _json
+    from ..absint import AbsMutation, AbsRaise, reset_global_state
+    from ..codec import new_interp
+    ref = ref_model(mb)
+    bare = ref_model(mb)
+    bare._f["ctcs"] = []
+    docs: dict[str, tuple[str, Any, Any]] = {
+        "FeatureIDEReader": ("FIDE", fide_doc(ref, False, False, False).encode("utf8"),
+                             fide_doc(bare, False, False, False, with_constraints=False).encode("utf8")),
+        "XMLReader": ("FAMA", fama_doc(ref).encode("utf8"), fama_doc(bare).encode("utf8")),
+        "GlencoeReader": ("GLENCOE", _json.dumps(glencoe_doc(ref)), _json.dumps(glencoe_doc(bare, ctcs=False))),
+        "AFMReader": ("AFM", afm_doc(ref), afm_doc(bare)),
+    }
+    for reader, (tag, with_ctcs, without) in docs.items():
+        if not pm.has_cls(reader):
+            continue
+        ci = pm.cls(reader)
+        tr = pm.method(ci, "transform")
+        where = loc(ci.unit.path, ci.node)
+        for variant, doc, other in (("with-constraints", with_ctcs, without), ("without-constraints", without, with_ctcs)):
+            reset_global_state()
+            vfs = VFS()
+            vfs.put(PATH, doc)
+            it = new_interp(pm, vfs)
+            both(it, vfs)
+            key = f"read-edit-read:{variant}"
+            try:
+                r1 = it.eval_call_class(ci, [PATH])
+                m1 = it.call(tr, [r1])
+                before = describe(m1)
+                # the caller works on what it was given
+                n_, o_ = mb.node, mb.op
+                root = m1._f["root"]
+                kids = [c for r in root._f["relations"] for c in r._f["children"]]
+                m1._f["ctcs"].append(mb.constraint("mine", n_(o_("IMPLIES"), n_(kids[0]._f["name"]), n_(root._f["name"]))))
+                mb.relation(root, [mb.feature("MineOnly")], 0, 1)
+                kids[0]._f["is_abstract"] = not kids[0]._f.get("is_abstract")
+                r2 = it.eval_call_class(ci, [PATH])
+                m2 = it.call(tr, [r2])
+                ds = diff(before, describe(m2), ctc_names=True)
+                ctx.check(not ds and m2 is not m1, f"C09-{tag}", key, where,
+                          "a document read again after the caller edited the first result denotes what it denoted before",
+                          bad=f"{reader}: the same document, read again after the caller edited the model of the first reading, "
+                              f"comes back changed: {ds[0][1] if ds else 'the very object handed out before'}")
+            except (AbsRaise, AbsMutation) as exc:
+                ctx.violation(f"C09-{tag}", key, where, f"{reader}: reading a valid document a second time raises {exc.what}")
+                continue
+            try:
+                vfs.put(PATH, other)
+                fresh = run_reader(pm, reader, vfs, setup=both)
+                m3 = it.call(tr, [r1])
+                if fresh["model"] is not None:
+                    ds = diff(describe(fresh["model"]), describe(m3), ctc_names=True)
+                    ctx.check(not ds, f"C09-{tag}", f"same-reader-object:file-replaced:{variant}", where,
+                              "a reader object asked again after its file was replaced reads the document that is there now",
+                              bad=f"{reader}: the reader object used before, asked again after the file was replaced, returns a "
+                                  f"model the new document does not denote: {ds[0][1] if ds else ''}")
+            except (AbsRaise, AbsMutation) as exc:
+                ctx.info(f"C09-{tag}", f"same-reader-object:file-replaced:{variant}", where,
+                         f"{reader}: a reader object asked to transform() a second time declines: {exc.what}")
+    reset_global_state()
+
+
 def check(pm: ProgramModel, ctx: Ctx) -> None:
     ctx.explanation = (
         "The four readers' transform() are evaluated from source on documents written by "
@@ -656,4 +724,5 @@ def check(pm: ProgramModel, ctx: Ctx) -> None:
     afm(pm, ctx, mb)
     large_documents(pm, ctx, mb)
     nary_sweep(pm, ctx, mb)
+    histories(pm, ctx, mb)
     ctx.floor("C09", "obligations", len(ctx.obligations), 30)
